@@ -144,18 +144,45 @@ def gen_pd_cases(ctx):
         yield case("unequal", r.choice(mc.RELS), ref, est, unit="f", delta=1.0)
 
 
+def gen_hist_cases(ctx):
+    """object-reuse histories: one RPE object, 2-3 process_data calls on different trajectory pairs"""
+    r = ctx.rng
+    for _ in range(40 if not ctx.thorough else 400):
+        calls = []
+        changed = False
+        for k in range(r.randint(2, 3)):
+            n = r.randint(3, 9)
+            ref = walk(r, n, 1.0, 0.6, stationary=r.choice([0.0, 0.3]))
+            est = noisy_copy(r, ref, 1.0, [0.0, 0.0, 0.0], "mixed")
+            if r.random() < 0.1:
+                est = est[:-1]
+            u = None
+            if not changed and r.random() < 0.4:
+                u = r.choice(["mm", "km", "deg", "rad"])
+                changed = True
+            calls.append({"ref": ref, "est": est, "unit_after": u})
+        yield {"kind": "hist", "rel": r.choice(mc.RELS), "mode": "mat", "calls": calls, "delta": float(r.choice([1, 1, 2])),
+               "unit": "f", "all_pairs": r.random() < 0.4, "from_ref": r.random() < 0.5, "tol": 0.1}
+
+
 def gen_cases(ctx):
     yield from gen_pd_cases(ctx)
+    yield from gen_hist_cases(ctx)
     yield from cli.gen_cli_cases(ctx, "rpe")
 
 
 # ------------------------------------------------------------------------------------------------ implementation
-def run_rpe(case, ref_path, est_path):
+def new_rpe(case):
+    from evo.core import metrics
+    return metrics.RPE(mc.pose_relation(case["rel"]), case["delta"], evo_unit(case["unit"]), case["tol"],
+                       case["all_pairs"], case["from_ref"])
+
+
+def run_rpe(case, ref_path, est_path, m=None):
     from evo.core import metrics, filters
     from evo.core.lie_algebra import LieAlgebraException
     try:
-        m = metrics.RPE(mc.pose_relation(case["rel"]), case["delta"], evo_unit(case["unit"]), case["tol"],
-                        case["all_pairs"], case["from_ref"])
+        m = m or new_rpe(case)
         with mc.quiet():
             m.process_data((ref_path, est_path))
     except metrics.MetricsException as e:
@@ -205,6 +232,36 @@ def run_impl_pd(case):
         out["same"] = run_rpe(case, mc.make_path("mat", out["seen_ref"]), mc.make_path("mat", same))
         out["same_inputs"] = same
     return out
+
+
+def run_impl_hist(case):
+    from props import C01 as P1
+    m = new_rpe(case)
+    outs = []
+    for call in case["calls"]:
+        ref, est = mc.make_path(case["mode"], call["ref"]), mc.make_path(case["mode"], call["est"])
+        out = {"seen_ref": mc.seen_poses(ref), "seen_est": mc.seen_poses(est)}
+        out["res"] = run_rpe(case, ref, est, m)
+        out["pairs"] = evo_pairs(case, mc.make_path(case["mode"], call["ref"] if case["from_ref"] else call["est"])) \
+            if len(call["ref"]) == len(call["est"]) else []
+        if "ok" in out["res"] and out["res"]["ok"]:
+            P1.after_call(m, out, call.get("unit_after"))
+        outs.append(out)
+    return outs
+
+
+def judge_hist(ctx, case, impls, outs_per_call):
+    from props import C01 as P1
+    rel = case["rel"]
+    for k, (call, out, outs) in enumerate(zip(case["calls"], impls, outs_per_call)):
+        sub = dict(case, kind="pd", stream="hist", ref=call["ref"], est=call["est"])
+        del sub["calls"]
+        judge_pd(ctx, sub, out, outs, report_case=case)
+        res = out["res"]
+        if "ok" in res and res["ok"] and out["pairs"] and len(call["ref"]) == len(call["est"]):
+            P1.judge_stats(ctx, case, k, out, res["ok"], rel, call.get("unit_after"))
+    ctx.count("branch", "hist-calls", len(case["calls"]))
+    ctx.record(case, True)
 
 
 # ------------------------------------------------------------------------------------------------ model
@@ -271,7 +328,8 @@ def frame_pairs(n, delta, all_pairs):
     return list(zip(ids, ids[1:]))
 
 
-def judge_pd(ctx, case, impl, outs):
+def judge_pd(ctx, case, impl, outs, report_case=None):
+    rc = report_case or case
     rel = case["rel"]
     res = impl["res"]
     n_ref, n_est = len(case["ref"]), len(case["est"])
@@ -282,7 +340,7 @@ def judge_pd(ctx, case, impl, outs):
     # ---- correspondence
     if pairs is None:
         if res.get("err") != "E_FILTER":
-            ctx.mismatch(case, "id_pairs_from_delta refuses but RPE.process_data does not", res.get("err", "values"), "E_FILTER")
+            ctx.mismatch(rc, "id_pairs_from_delta refuses but RPE.process_data does not", res.get("err", "values"), "E_FILTER")
         ctx.count("branch", "no-pairs")
     elif borderline:
         ctx.skipped += 1
@@ -290,7 +348,7 @@ def judge_pd(ctx, case, impl, outs):
         m_out = outs[0]
         if "err" in res or not m_out.startswith("OK"):
             if res.get("err") != m_out:
-                ctx.mismatch(case, "RPE.process_data refusal differs from Rpe.rpe", res.get("err", "values"), m_out[:40])
+                ctx.mismatch(rc, "RPE.process_data refusal differs from Rpe.rpe", res.get("err", "values"), m_out[:40])
             ctx.count("branch", "refused:" + m_out if not m_out.startswith("OK") else "model-ok-impl-refused")
         else:
             head, _, tail = m_out.partition("|")
@@ -298,9 +356,9 @@ def judge_pd(ctx, case, impl, outs):
             ids = [int(x) for x in h[2:]]
             toks = tail.split()
             if ids != res["ids"]:
-                ctx.mismatch(case, "RPE.delta_ids differ from the model", res["ids"][:20], ids[:20])
+                ctx.mismatch(rc, "RPE.delta_ids differ from the model", res["ids"][:20], ids[:20])
             elif len(toks) != len(res["ok"]):
-                ctx.mismatch(case, "number of RPE values differs from the model", len(res["ok"]), len(toks))
+                ctx.mismatch(rc, "number of RPE values differs from the model", len(res["ok"]), len(toks))
             else:
                 kept = pairs
                 if rel == "point_distance_error_ratio":
@@ -309,7 +367,7 @@ def judge_pd(ctx, case, impl, outs):
                     mv = mc.value_of_core(tok)
                     i, j = kept[k]
                     if not abs(v - mv) <= pair_tol(rel, impl, i, j, mv):
-                        ctx.mismatch(case, f"RPE value {k} (pair {i},{j}) differs from the model core ({rel})", v, mv)
+                        ctx.mismatch(rc, f"RPE value {k} (pair {i},{j}) differs from the model core ({rel})", v, mv)
                         break
                 ctx.count("branch", "values:" + rel)
                 if len(kept) < len(pairs):
@@ -317,7 +375,7 @@ def judge_pd(ctx, case, impl, outs):
     # ---- oracle
     if n_ref != n_est:
         if "ok" in res:
-            ctx.fail(case, "refuses-unequal-lengths", f"{n_ref} reference vs {n_est} estimate poses gave {len(res['ok'])} values")
+            ctx.fail(rc, "refuses-unequal-lengths", f"{n_ref} reference vs {n_est} estimate poses gave {len(res['ok'])} values")
     elif "ok" in res and pairs is not None:
         vals, ids = res["ok"], res["ids"]
         if case["unit"] == "f":
@@ -327,7 +385,7 @@ def judge_pd(ctx, case, impl, outs):
             else:
                 ctx.count("branch", "oracle-own-frame-pairs")
         if len(vals) != len(ids):
-            ctx.fail(case, "ids-and-values-same-length", f"{len(vals)} values, {len(ids)} delta_ids")
+            ctx.fail(rc, "ids-and-values-same-length", f"{len(vals)} values, {len(ids)} delta_ids")
         else:
             ref, est = exact_rows(case, "ref"), exact_rows(case, "est")
             want = []
@@ -336,14 +394,14 @@ def judge_pd(ctx, case, impl, outs):
                 if w is not None:
                     want.append((i, j, w))
             if [j for _, j, _ in want] != ids:
-                ctx.fail(case, "delta-ids-are-pair-ends", f"delta_ids {ids[:12]} expected {[j for _, j, _ in want][:12]}")
+                ctx.fail(rc, "delta-ids-are-pair-ends", f"delta_ids {ids[:12]} expected {[j for _, j, _ in want][:12]}")
             elif len(want) != len(vals):
-                ctx.fail(case, "one-value-per-pair", f"{len(vals)} values for {len(want)} pairs")
+                ctx.fail(rc, "one-value-per-pair", f"{len(vals)} values for {len(want)} pairs")
             else:
                 for k, (i, j, w) in enumerate(want):
                     tol = 4 * pair_tol(rel, impl, i, j, w)
                     if not abs(vals[k] - w) <= tol:
-                        ctx.fail(case, "value-equals-definition",
+                        ctx.fail(rc, "value-equals-definition",
                                  f"{rel}: pair {k} ({i},{j}): evo {vals[k]!r}, definition {w!r} (tol {tol:.3g})")
                         break
             for name, clause in (("moved", "unchanged-under-separate-rigid-motions"), ("same", "zero-for-same-relative-motion")):
@@ -354,7 +412,7 @@ def judge_pd(ctx, case, impl, outs):
                     # zero-distance pairs are skipped on both sides: lengths still equal
                     pass
                 if "ok" not in o or o["ids"] != ids or len(o["ok"]) != len(vals):
-                    ctx.fail(case, clause, f"{name}: {str(o)[:200]}")
+                    ctx.fail(rc, clause, f"{name}: {str(o)[:200]}")
                     continue
                 kept = [(i, j) for i, j, _ in want]
                 for k, (i, j) in enumerate(kept):
@@ -367,7 +425,7 @@ def judge_pd(ctx, case, impl, outs):
                         w = 0.0
                     tol = 8 * pair_tol(rel, impl, i, j, w, extra)
                     if not abs(o["ok"][k] - w) <= tol:
-                        ctx.fail(case, clause, f"{rel}: pair ({i},{j}): {o['ok'][k]!r} vs {w!r} (tol {tol:.3g})")
+                        ctx.fail(rc, clause, f"{rel}: pair ({i},{j}): {o['ok'][k]!r} vs {w!r} (tol {tol:.3g})")
                         break
     # ---- bookkeeping
     ctx.count("dist", f"pd:{case['stream']}:{case['mode']}")
@@ -375,7 +433,7 @@ def judge_pd(ctx, case, impl, outs):
     ctx.count("dist", f"unit:{case['unit']}:{'all' if case['all_pairs'] else 'consecutive'}:{'ref' if case['from_ref'] else 'est'}")
     nontrivial = ("err" in res) or (sum(1 for v in res.get("ok", []) if v != 0.0) >= 2) or \
                  (pairs is not None and "ok" in res and len(res["ok"]) < len(pairs))
-    ctx.record(case, nontrivial)
+    ctx.record(rc if report_case is None else case, nontrivial)
 
 
 def kept_mask(impl, pairs):
@@ -383,6 +441,13 @@ def kept_mask(impl, pairs):
 
 
 def shrink(case):
+    if case["kind"] == "hist":
+        if len(case["calls"]) > 2:
+            for k in range(len(case["calls"])):
+                c = dict(case)
+                c["calls"] = case["calls"][:k] + case["calls"][k + 1:]
+                yield c
+        return
     if case["kind"] != "pd":
         yield from cli.shrink(case)
         return
@@ -410,6 +475,19 @@ def evaluate(ctx, cases):
     outs = core.run_driver(lines, "C02")
     for c, im, (a, b) in zip(pd, impls, spans):
         judge_pd(ctx, c, im, outs[a:b])
+    hist = [c for c in cases if c["kind"] == "hist"]
+    himpls = [run_impl_hist(c) for c in hist]
+    lines, spans = [], []
+    for c, ims in zip(hist, himpls):
+        sp = []
+        for im in ims:
+            l = model_lines_pd(c, im)
+            sp.append((len(lines), len(lines) + len(l)))
+            lines += l
+        spans.append(sp)
+    outs = core.run_driver(lines, "C02")
+    for c, ims, sp in zip(hist, himpls, spans):
+        judge_hist(ctx, c, ims, [outs[a:b] for a, b in sp])
     cli.evaluate(ctx, [c for c in cases if c["kind"] == "cli"], "rpe")
 
 
